@@ -2329,15 +2329,57 @@ func TestZZVerifC07Trace(t *testing.T) {
 
 	emit("init", map[string]any{"ms": ms, "en": zzC07B2I(fe)})
 
+	// Rare calls are drawn so that a history sees a few of each whatever its
+	// length: about one clear, three rotations, four configuration changes,
+	// four restarts.  A "big" history (files beyond the 1.6 MB read buffer of
+	// the reader) has no clear and half of its records carry the 3 KB rule.
+	big := zzGetenv("VERIF_C07_BIG") != ""
+	ops := float64(nrec) / 0.78
+	pFlush, pRotate, pClear, pConf, pRestart := 25.0/1000, 3/ops, 1/ops, 4/ops, 4/ops
+	if big {
+		pClear, pRotate = 0, 1/ops
+	}
+
+	longShape := 0
+	for i, sh := range zzC07Shapes {
+		if sh.name == "block-two-long-rules" {
+			longShape = i
+		}
+	}
+
 	enabled, anon := true, false
 	payloadBad := 0
 	for x.clock < nrec && x.discard == "" {
-		roll := rng.Intn(1000)
+		u := rng.Float64()
+		roll := 1000
+		switch {
+		case u < 0.78:
+			roll = 0
+		case u < 0.95:
+			roll = 800
+		case u < 0.95+pFlush:
+			roll = 960
+		case u < 0.95+pFlush+pRotate:
+			roll = 980
+		case u < 0.95+pFlush+pRotate+pClear:
+			roll = 983
+		case u < 0.95+pFlush+pRotate+pClear+pConf:
+			roll = 990
+		case u < 0.95+pFlush+pRotate+pClear+pConf+pRestart:
+			roll = 999
+		default:
+			continue
+		}
+
 		switch {
 		case roll < 780:
 			reason := reasons[rng.Intn(len(reasons))]
 			name, cli := names[rng.Intn(4)], clients[rng.Intn(4)]
 			sh := zzC07ShapeFor(rng, reason)
+			if big && rng.Intn(2) == 0 {
+				sh = longShape
+				reason = zzC07Shapes[sh].reason
+			}
 			sizeBefore := zzC07Size(filepath.Join(x.dir, queryLogFileName))
 			x.record(name, cli, sh)
 			auto := false
